@@ -84,14 +84,11 @@ Verdicts(r) ==
            \cup (IF rp.json.present /\ ~rp.json.valid THEN {<<"C15.json_valid", "text">>} ELSE {})
            \cup (IF hasJ THEN JsonMirror(J, X, a) \cup TablesMirror(rp.tables, a) ELSE {})
            \cup (IF hasJ /\ rp.readback.done
-                 THEN \* family table_unreadable (found with the decor rows): JsonParser.parse_table builds model.Table(headings,
-                      \* rows=rows) without a line, Table.__init__ computes line + index + 1 -> TypeError for ANY step table;
-                      \* as narrow as the defect: TypeError and the report holds a step table
-                      LET fam(exc) == Fam("C15.json_readback", IF exc = "TypeError" /\ rp.tables.json # <<>> THEN "table_unreadable" ELSE "none") IN
+                 THEN
                       (IF rp.readback.parse_exc # ""
-                       THEN {<<fam(rp.readback.parse_exc), "parse:" \o rp.readback.parse_exc>>} ELSE {})
+                       THEN {<<"C15.json_readback", "parse:" \o rp.readback.parse_exc>>} ELSE {})
                       \cup (IF rp.readback.line_is_text THEN {<<"C15.json_readback", "line_is_text">>} ELSE {})
-                      \cup (IF rp.readback.exc # "" THEN {<<fam(rp.readback.exc), "parse_features:" \o rp.readback.exc>>}
+                      \cup (IF rp.readback.exc # "" THEN {<<"C15.json_readback", "parse_features:" \o rp.readback.exc>>}
                             ELSE ReadBackClause(rp.readback.features, J)
                                  \cup (IF rp.readback.tables # rp.tables.json THEN {<<"C15.json_readback", "tables">>} ELSE {}))
                  ELSE {})
